@@ -214,4 +214,8 @@ func init() {
 		"	if allowRequest(req, v) {\n		return nil\n	}", "	if allowRequest(req, v) || len(req.Objects) == 0 {\n		return nil\n	}", "C18.R1.gate")
 	mut("C18", "policies are looked up for the first requested object instead of the subject", rb,
 		"	v, err := e.retrievePolicies(ctx, req.Subject)", "	v, err := e.retrievePolicies(ctx, req.Objects[0])", "C18.R1.gate")
+
+	// ---------------- C15.R2 counter
+	mut("C15", "the key counter is advanced by read-then-set", "core/pkg/distribution/channel/counter.go",
+		"	next, err := c.wrap.Add(ctx, int64(delta))\n	return LocalKey(next), err", "	next := c.wrap.Value() + int64(delta)\n	err := c.wrap.Set(ctx, next)\n	return LocalKey(next), err", "C15.R2.provenance")
 }
